@@ -16,14 +16,14 @@ import (
 
 func C02() *engine.Scenario {
 	return &engine.Scenario{
-		ID:       "C02",
-		Level:    "exploration",
-		MapSched: true,
-		Setup:    loadKeys,
-		Rule: "World in the FAULT-FREE configuration. Each run: the Author draws a pipeline (all known step kinds, groups to depth 3, plugin/matrix/env/cache shorthands, short and canonical plugin sources, non-string scalars, strings over the C09 alphabet) rendered as YAML or JSON; the Uploader (real Parse, optional Interpolate, SignSteps with the pipeline env, json.Marshal) uploads it; the Backend stub relays it through 0-3 library hops (Parse + Marshal to JSON or YAML, tape-chosen) and delivers either the whole document (Agent uses Parse) or one job per command step (JSON with tape-permuted object key order, nil<->empty env/plugins/matrix spelling, unrelated env vars added; Agent uses CommandStep.UnmarshalJSON); the Agent verifies every command step's embedded signature with the public key. All library map ranges run in sched-tape order. Oracle: every signed command step arrives and Verify returns nil. Fingerprint = (hop formats, entry point, key kind, features present among plugins/matrix/step env/pipeline-env overlap/non-string scalar/short source/empty container). Non-trivial = >=2 features and >=1 marshal->parse boundary crossed.",
-		Real:     []string{"pipeline.Parse", "(*Pipeline).Interpolate", "signature.SignSteps/Sign", "json.Marshal / yaml.Marshal of *Pipeline", "CommandStep.UnmarshalJSON", "signature.Verify", "jwx JWS sign/verify, JCS"},
-		Stub:     []string{"Author", "Backend (storage, relay driver, job splitter, harmless re-encoder)", "transport (fault-free)", "map iteration scheduler (zzverifsim)", "fixed key fixtures from /verif/keys"},
-		Assume:   []string{"strings as the property states: no C0/C1 controls or DEL; YAML hops are skipped (counted) for documents containing a multi-line string that begins with whitespace", "signature bytes never enter logs or oracles (ECDSA/PSS are randomised); outcomes do"},
+		ID:         "C02",
+		Level:      "exploration",
+		MapSched:   true,
+		Setup:      loadKeys,
+		Rule:       "World in the FAULT-FREE configuration. Each run: the Author draws a pipeline (all known step kinds, groups to depth 3, plugin/matrix/env/cache shorthands, short and canonical plugin sources, non-string scalars, strings over the C09 alphabet) rendered as YAML or JSON; the Uploader (real Parse, optional Interpolate, SignSteps with the pipeline env, json.Marshal) uploads it; the Backend stub relays it through 0-3 library hops (Parse + Marshal to JSON or YAML, tape-chosen) and delivers either the whole document (Agent uses Parse) or one job per command step (JSON with tape-permuted object key order, nil<->empty env/plugins/matrix spelling, unrelated env vars added; Agent uses CommandStep.UnmarshalJSON); the Agent verifies every command step's embedded signature with the public key. All library map ranges run in sched-tape order. Oracle: every signed command step arrives and Verify returns nil. Fingerprint = (hop formats, entry point, key kind, features present among plugins/matrix/step env/pipeline-env overlap/non-string scalar/short source/empty container). Non-trivial = >=2 features and >=1 marshal->parse boundary crossed.",
+		Real:       []string{"pipeline.Parse", "(*Pipeline).Interpolate", "signature.SignSteps/Sign", "json.Marshal / yaml.Marshal of *Pipeline", "CommandStep.UnmarshalJSON", "signature.Verify", "jwx JWS sign/verify, JCS"},
+		Stub:       []string{"Author", "Backend (storage, relay driver, job splitter, harmless re-encoder)", "transport (fault-free)", "map iteration scheduler (zzverifsim)", "fixed key fixtures from /verif/keys"},
+		Assume:     []string{"strings as the property states: no C0/C1 controls or DEL; YAML hops are skipped (counted) for documents containing a multi-line string that begins with whitespace", "signature bytes never enter logs or oracles (ECDSA/PSS are randomised); outcomes do"},
 		Runs:       map[string]int{"quick": 12000, "thorough": 600000},
 		TimeoutSec: 120,
 		Run:        runC02,
